@@ -279,7 +279,22 @@ class NP:
         return rnp.array(a, dtype=dtype, copy=copy, ndmin=ndmin, **kw)
 
     def empty(self, shape, dtype=float, **kw):
-        return rnp.empty(shape, dtype=self._dt(dtype))
+        a = rnp.empty(shape, dtype=self._dt(dtype))
+        if a.dtype == object:
+            self._poison(a)
+        return a
+
+    _uninit = [0]
+
+    def _poison(self, a):
+        """uninitialised memory: every element is an arbitrary real of its own (reading one before it is written yields a value
+        no obligation can depend on); large buffers are left as None (reading then fails closed)"""
+        if a.size > 2048:
+            return
+        flat_ = a.reshape(-1)
+        for i in range(flat_.size):
+            self._uninit[0] += 1
+            flat_[i] = Sym(z3.Real(f"uninitialised!{self._uninit[0]}"))
 
     def _filled(self, shape, val, dtype):
         if is_float_dtype(dtype):
@@ -314,6 +329,8 @@ class NP:
             out = rnp.empty(shape, dtype=object)
             if val is not None:
                 out[...] = val
+            else:
+                self._poison(out)
             return out
         if val is None:
             return rnp.empty(shape, dtype=dtype if dtype is not None else base)
